@@ -650,7 +650,7 @@ impl<'a> G<'a> {
     }
 
     fn types_and_attributes(&mut self, d: usize) {
-        match self.rng.below(12) {
+        match self.rng.below(14) {
             0 => {
                 self.tag("type-annotated-local");
                 let x = self.fresh("ta");
@@ -715,6 +715,18 @@ impl<'a> G<'a> {
                 self.tag("type-function");
                 let f = self.fresh("tf");
                 self.push(format!("type function {}(a) return a end", f));
+            }
+            11 | 12 => {
+                // a BARE cast of a call that returns two values, in the positions where a second value
+                // would be observable: the cast truncates to one value, so must what replaces it
+                self.tag("type-cast-bare-multi-value");
+                let r = self.fresh("rc");
+                match self.rng.below(4) {
+                    0 => self.push("emit(two() :: any)".to_owned()),
+                    1 => self.push(format!("local {r}a, {r}b = two() :: any emit({r}a, {r}b)", r = r)),
+                    2 => self.push("emit(#{two() :: any}, #{1, two() :: number})".to_owned()),
+                    _ => self.push(format!("local function {r}() return two() :: any end emit({r}())", r = r)),
+                }
             }
             _ => {
                 self.tag("type-cast-positions");
